@@ -43,7 +43,7 @@ TInit == Init /\ l = 1 /\ bi = -1 /\ diverged = FALSE
 Reset == /\ Ev("Reset")
          /\ allow' = S.allow /\ initLen' = S.n /\ initTomb' = S.tomb /\ ws' = 1..S.nw
          /\ Logged
-         /\ match' = [w \in Writers |-> 0] /\ att' = [w \in Writers |-> 0] /\ loc' = [w \in Writers |-> NoLoc]
+         /\ match' = [w \in Writers |-> 0] /\ ph' = [w \in Writers |-> <<>>] /\ att' = [w \in Writers |-> 0] /\ loc' = [w \in Writers |-> NoLoc]
          /\ dso' = [w \in Writers |-> 0] /\ uo' = [w \in Writers |-> <<>>] /\ dropped' = {} /\ dev' = {} /\ top' = [seq |-> S.seq, rev |-> S.cur] /\ lost' = {} /\ backIdx' = {}
          /\ feed' = <<>> /\ quiesced' = FALSE
          /\ docSeqs' = <<>> /\ onDoc' = SetOf(S.iseq) /\ initSeq' = [i \in 1..Len(S.iseq) |-> S.iseq[i]]
